@@ -38,14 +38,20 @@ def main():
                 continue        # zic itself rejects the variant: not a program
         mutants.append(('mutant%02d' % len(mutants), txt, what))
     programs += [(n, t) for (n, t, w) in mutants]
+    # the real 2025b release shipped in the sandbox (compact tzdata.zi), de-shrunk and with %z rewritten
+    zi_info = None
+    if os.path.exists('/usr/share/zoneinfo/tzdata.zi'):
+        from spec import tzdata_zi
+        t25, zi_info = tzdata_zi.deshrink()
+        programs.append(('tz2025b', t25))
     reps = []
     for name, text in programs:
         for scope in ('extended', 'basic'):
-            if name == 'reconstructed':
+            if name in ('reconstructed', 'tz2025b'):
                 # byte-identical (modulo comments/links) regeneration of the shipped extended tables is decided by C01; the
                 # engine run on the regenerated tables is done for a sample (quick) / all zones (thorough)
                 reps.append(pipeline.check_program_scope(kc, name, text, scope, YEARS, run_engine=True,
-                                                         zone_limit=None if thorough else 24))
+                                                         zone_limit=None if thorough else (24 if name == 'reconstructed' else 12)))
             else:
                 reps.append(pipeline.check_program_scope(kc, name, text, scope, YEARS))
     kc.results = []
@@ -61,11 +67,13 @@ def main():
         'compiler': 'tools/tzcompiler.py (Extractor, Transformer, ArduinoGenerator incl. BufSizeEstimator, ZoneListGenerator, '
                     'TzDbCollector) run as a subprocess of this check on each program',
         'mutant_programs': [{'name': n, 'change': w} for (n, t, w) in mutants],
+        'tz2025b': None if zi_info is None else {'zones': zi_info['zones'], 'rules': zi_info['rules'], 'links': zi_info['links'],
+                                                 'skipped_by_harness': zi_info['skipped_by_harness']},
         'bounds': {'programs': [n for n, _ in programs], 'instants': 'every epoch second of 2000..2049, symbolic',
                    'zones': 'all emitted zones of the synthetic program; %s emitted zones of the reconstructed 2020d subset' % (
-                       'all' if thorough else 'a seed-drawn sample of 24 per scope among the')},
+                       'all' if thorough else 'a seed-drawn sample of 24 per scope among the') + '; 2025b: %s emitted zones per scope' % ('all' if thorough else '12 seed-drawn')},
         'outside_bounds': ['"for any source": only the listed programs (the source text is concrete, not symbolic)',
-                           'the 2025b release in /usr/share/zoneinfo/tzdata.zi (compact form; not wired in)',
+                           '2025b zones whose %z eras use rules with several SAVE values are skipped by the harness (listed), not given to the compiler',
                            'Python-language tables interpreted by ZoneSpecifier (see C04/C20)'],
     }
     kc.finish(cov, ['zic 2.36 compiles the same program text that is given to tzcompiler',
